@@ -37,7 +37,8 @@ type closureVal struct {
 }
 
 type loopCtx struct {
-	i string // $i term
+	i     string // $i term
+	entry *State // state at loop entry (before the head havoc)
 }
 
 type Frame struct {
